@@ -30,8 +30,27 @@ def main():
         if a.replay:
             return mod.replay(ctx, a.replay) if hasattr(mod, "replay") else core.generic_replay(ctx, mod, a.replay)
         return mod.run(ctx)
-    except Exception:
+    except Exception as e:
         traceback.print_exc()
+        # An exception that passed through the implementation's own code (a frame under the repository) means the harness
+        # can no longer drive the current code through the interfaces the model was tied to: that is a broken correspondence,
+        # decided like any other (failing-input search, then VIOLATION with or without a concrete input).  Anything else
+        # (the harness's own bug, the environment) stays exit 2: not a verdict.
+        frames = traceback.extract_tb(e.__traceback__)
+        repo = os.path.realpath(core.REPO) + os.sep
+        through_repo = [f for f in frames if os.path.realpath(f.filename).startswith(repo)]
+        if through_repo and not a.replay:
+            f = through_repo[-1]
+            ctx.corr_break(
+                "harness-could-not-drive-the-implementation",
+                {"at": "%s:%d in %s" % (os.path.relpath(f.filename, core.REPO), f.lineno, f.name)},
+                "the interfaces the correspondence is tied to (signatures, row keys, statistics keys)",
+                "%s: %s" % (type(e).__name__, e),
+            )
+            try:
+                return ctx.finish(getattr(mod, "search", None))
+            except Exception:
+                traceback.print_exc()
         print("ERROR %s: harness failure (exit 2, not a verdict)" % a.prop)
         return 2
 
